@@ -448,18 +448,32 @@ pub fn run(cx: &mut Ctx) {
     }
     let mut r = Rng::new(cx.shard_seed());
     // A. all dates
+    // under Miri (memory-safety run of the printers: fmt/util.rs builds its strings with from_utf8_unchecked) the
+    // enumerated spaces are strided and the zone part is skipped (no system database under Miri)
+    let slow = cfg!(miri) || cx.opt("small").is_some();
     let mut idx = 0u64;
-    for day in cal::MIN_DAY..=cal::MAX_DAY {
-        idx += 1;
-        if cx.mine(idx / 1024) {
+    if slow {
+        let mut day = cal::MIN_DAY + cx.shard as i64 * 2_503;
+        while day <= cal::MAX_DAY {
             check_date(cx, day);
+            day += 40_009;
+        }
+    } else {
+        for day in cal::MIN_DAY..=cal::MAX_DAY {
+            idx += 1;
+            if cx.mine(idx / 1024) {
+                check_date(cx, day);
+            }
         }
     }
-    cx.count("dates", (cal::MAX_DAY - cal::MIN_DAY + 1) as u64 / cx.nshards);
+    cx.count("dates", (cal::MAX_DAY - cal::MIN_DAY + 1) as u64 / cx.nshards / if slow { 40_009 / cx.nshards.max(1) } else { 1 });
     // B. every second of the day x nanosecond patterns
     let pats: [i64; 12] = [0, 1, 999_999_999, 500_000_000, 120_000_000, 123_456_789, 100, 1_000, 10, 999_999_000, 990_000_000, 1_000_000];
-    for s in 0..86400i64 {
-        if !cx.mine(s as u64 / 16) {
+    for s in (0..86400i64).step_by(if slow { 997 } else { 1 }) {
+        if !cx.mine(s as u64 / 16) && !slow {
+            continue;
+        }
+        if slow && (s / 997) as u64 % cx.nshards != cx.shard % cx.nshards {
             continue;
         }
         for &p in &pats {
@@ -467,7 +481,7 @@ pub fn run(cx: &mut Ctx) {
         }
     }
     // C. datetimes and timestamps
-    let n = cx.budget(2_000_000, 80_000_000);
+    let n = if slow { cx.opt_u64("n", 150) } else { cx.budget(2_000_000, 80_000_000) };
     for i in 0..n {
         let mut c = gen::gen_civ(&mut r);
         // every fraction length
@@ -491,6 +505,17 @@ pub fn run(cx: &mut Ctx) {
     }
     for t in [MIN_NS, MAX_NS, 0, -1, 1] {
         check_timestamp(cx, t, &mut r);
+    }
+    if slow {
+        // fixed-offset zoned values only
+        for _ in 0..40 {
+            // (not zero: TimeZone::fixed(0) is UTC, whose "[UTC]" annotation needs a time zone database to parse back)
+            let o = r.range(60, 93599) as i32 * if r.chance(1, 2) { 1 } else { -1 };
+            let tz = TimeZone::fixed(Offset::from_seconds(o - o % 60).unwrap());
+            check_zoned(cx, &format!("fixed:{}", o - o % 60), &tz, None, r.range128(MIN_NS, MAX_NS), &mut r);
+        }
+        cx.sample(|| "reduced run (Miri): strided dates/times, seeded datetimes/timestamps, fixed-offset zoned values".to_string());
+        return;
     }
     // D. zoned: named zones from the system database x instants around every transition
     let years = zones::probe_years(&mut Rng::new(cx.seed), cx.thorough);
